@@ -707,6 +707,9 @@ def run(chk):
             first_line = next((ln for ln in d.split("\n") if ln.strip() and ln.strip() != "---"), "")
             if first_line.lstrip().startswith("#") and cp and cp[0] <= 1:
                 continue   # yq keeps comments at the top of a document as leading content, not on the first node
+            if u["kind"] == "delete" and _blank_separated_comments_near(d, t0[0], u["path"]):
+                chk.extra["skipped_delete_ambiguous_comment_block"] = chk.extra.get("skipped_delete_ambiguous_comment_block", 0) + 1
+                continue
             last_line = next((ln for ln in reversed(d.split("\n")) if ln.strip()), "")
             nroot = len(root0.get("content", []))
             if last_line.lstrip().startswith("#") and cp and cp[0] >= nroot - 1:
@@ -777,6 +780,29 @@ def run(chk):
                      "correspondence is sampled; the unbounded claim is the Coq theorem over the model"])
 
 
+def _blank_separated_comments_near(doc, t0, P):
+    """A run of comment lines containing a blank line touches the entry: yaml.v3 gives the whole run to one
+    of the two neighbours, and which one depends on what else is in the text (leading comments)."""
+    lines = doc.split("\n")
+    span = [e["pos"][0] for q, e in t0.items() if is_under(P, q) and e["a"][0] in ("scalar", "alias")]
+    if not span:
+        return False
+    strip = lambda b: re.sub(r"^(-\s*)+", "", b.strip())
+    for rng_ in (range(min(span) - 2, -1, -1), range(max(span), len(lines))):
+        run = []
+        for i in rng_:
+            if strip(lines[i]) == "" or strip(lines[i]).startswith("#"):
+                run.append(strip(lines[i]))
+            else:
+                break
+        if any(r == "" for r in run) and sum(1 for r in run if r.startswith("#")) >= 1:
+            txt = [r for r in run]
+            # blank line strictly between two comment lines, or between a comment and the entry
+            if any(r.startswith("#") for r in txt):
+                return True
+    return False
+
+
 def _wrap(doc):
     """The document node as a one-element sequence, so that comments yaml.v3 attributes to the document are part of the tree."""
     return dict(doc, kind=2, tag="", value="", style=0, anchor="")
@@ -800,16 +826,23 @@ def classify(diffs, u, t0, doc):
             return "foot-comment-moves-past-next-sibling"
     if kinds == {"comment-lost"} and u["kind"] == "delete":
         lines = doc.split("\n")
-        start = min((e["pos"][0] for q, e in t0.items() if is_under(P, q) and e["a"][0] in ("scalar", "alias")), default=None)
-        ok = start is not None
+        span = [e["pos"][0] for q, e in t0.items() if is_under(P, q) and e["a"][0] in ("scalar", "alias")]
+        ok = bool(span)
+        strip = lambda b: re.sub(r"^(-\s*)+", "", b.strip())
         for x in diffs:
             pos = comment_positions(doc).get(x[2])
-            if pos is None or pos[0] >= start:
+            if not ok or pos is None:
                 ok = False
                 break
-            between = lines[pos[0]:start - 1]
-            strip = lambda b: re.sub(r"^(-\s*)+", "", b.strip())
-            if not between or between[0].strip() != "" or any(strip(b) and not strip(b).startswith("#") for b in between):
+            if pos[0] < min(span):
+                between = lines[pos[0]:min(span) - 1]
+            elif pos[0] > max(span):
+                between = lines[max(span):pos[0] - 1]
+            else:
+                ok = False
+                break
+            # only blank and comment lines, at least one blank, lie between the lost comment and the deleted entry
+            if not any(b.strip() == "" for b in between) or any(strip(b) and not strip(b).startswith("#") for b in between):
                 ok = False
         if ok:
             return "comment-before-deleted-entry-lost"
